@@ -8,7 +8,7 @@ HERE = os.path.dirname(os.path.dirname(os.path.abspath(__file__)))
 # id -> (technique, level text, level note, design ref)
 CHECKS = {
     "C01": ("exhaustive enumeration of the v3 score quotient with seeded random spellings + Hypothesis, exact Fraction oracle",
-            "Every effective v3.0/v3.1 assignment class (thorough: all 518,400 base/temporal and 6,718,464 environmental classes) is scored by the library through a randomly spelled vector and compared with an exact rational evaluation of the specification equations; exhaustive over the quotient, sampled over the spellings above each class.",
+            "Every effective v3.0/v3.1 assignment class (thorough: all 518,400 base/temporal and 6,718,464 environmental classes) is scored by the library through a randomly spelled vector (and, for base/temporal classes, the plain spelling) and compared with an exact rational evaluation of the specification equations; every second unit is computed in a fresh non-main thread; exhaustive over the quotient, sampled over the spellings above each class.",
             "Trusts the Fraction oracle typed from the specification (self-tested against the official-calculator vectors pinned from the repository) and samples the fibre above each class (C05/C06 attack fibre invariance).", "4/C01"),
     "C02": ("exhaustive enumeration of the 15,116,544 effective v4 assignments with seeded random spellings + Hypothesis, exact Fraction macrovector oracle",
             "Every effective v4.0 assignment (thorough) / a macrovector-stratified 1.5M sample (quick) is scored through a randomly realised vector (base vs Modified metric, X/omitted defaults, supplemental noise, shuffled order) and compared with an exact evaluation of the macrovector/interpolation algorithm whose highest-severity vectors and depths are derived from the EQ definitions.",
@@ -34,13 +34,13 @@ CHECKS = {
     "C09": ("seeded quotient classes with oracle-selected witnesses for every reachable (slot, score value), pinned band table",
             "For every (version, slot, score value) triple met by an oracle pre-pass a witness vector is pushed through the library: float format, range, None rule, severities() vs the official scale applied to the oracle score, CVSS4.severity and JSON severities agree.",
             "Score values judged against the exact oracles; severity strings compared case-insensitively across exposures.", "4/C09"),
-    "C10": ("Hypothesis + covering set, jsonschema validation against pinned FIRST schemas (Decimal-exact)",
+    "C10": ("Hypothesis + covering set + seeded sweep of score-quotient classes, jsonschema validation against pinned FIRST schemas (Decimal-exact)",
             "as_json() for all four (sort, minimal) pairs, after a JSON round trip, validated with the draft each schema declares; two listed known findings are recognised by shape, normalised and the normalised document must validate completely.",
             "Pinned schema copies; additional properties are allowed by the schemas, so differently named v4 fields are unconstrained.", "4/C10"),
-    "C11": ("Hypothesis (incl. zero-score-biased generator) + covering set against a model JSON document",
+    "C11": ("Hypothesis (incl. zero-score-biased generator) + covering set + seeded sweep of score-quotient classes against a model JSON document",
             "version/vectorString identify the input, every present score/severity equals oracle score/band, every metric field names the effective value (pinned value-name table), sort only orders keys, minimal output is a sub-dictionary that removes only whole undefined temporal/environmental groups.",
             "Value names from the FIRST schemas; v4 field names pinned from the pinned commit.", "4/C11"),
-    "C12": ("Hypothesis + deterministic 101-score sweep, float() as the definition of 'number', oracle base score",
+    "C12": ("Hypothesis + deterministic sweep of all 101 scores and near-miss floats, float() as the definition of 'number', oracle base score",
             "rh_vector() format and round trip; from_rh_vector accepts iff numeric score part, valid vector and exact equality with the oracle base score; error taxonomy (RH-malformed, mismatch, ordinary vector errors); only CVSSnError subclasses escape.",
             "Precedence between a bad score part and a bad vector part is not asserted.", "4/C12"),
     "C13": ("Hypothesis text generator (planted/near-valid/glued/repeated vectors) + atheris in thorough, reference acceptor as oracle",
@@ -58,10 +58,10 @@ CHECKS = {
     "C17": ("Hypothesis-generated command lines, in-process main() with patched argv/stdin/stdout + real subprocess sample; API differential and dialogue model as oracle",
             "For generated flag sets, vectors (valid, other-version, mutants, arbitrary text) and stdin scripts (complete / truncated): exit status 0, no exception or traceback, report lines parsed by label equal the API's scores, ratings, cleaned and RH vector, -j document equals as_json(sort=True, minimal=True) incl. key order, invalid vector -> the library's message, EOF -> clean end.",
             "Several version flags: any selected version accepted; empty VECTOR read as absent; layout, banners and v2 ratings not asserted.", "4/C17"),
-    "C18": ("Hypothesis RuleBasedStateMachine over accessor calls and dict mutations, twin-object oracle",
-            "Sequences of accessor calls (all public accessors, every as_json option pair), ==/hash against a twin and mutations of returned dicts; every result must equal what a twin object returned when that accessor was its first call; nothing may raise.",
+    "C18": ("Hypothesis RuleBasedStateMachine over accessor calls and dict mutations, twin-object oracle; one object shared by 2-4 threads under a deterministic settrace scheduler with drawn schedules",
+            "Sequences of accessor calls (all public accessors, every as_json option pair), ==/hash against a twin and mutations of returned dicts; every result must equal what a twin object returned when that accessor was its first call; nothing may raise. Second generator: one object shared by threads whose interleaving (line granularity) is drawn by Hypothesis.",
             "Only observable results compared; sequences up to 30 (quick) / 50 (thorough) steps.", "4/C18"),
-    "C19": ("Hypothesis stateful histories vs a fresh interpreter process + global-state snapshots; deterministic settrace thread scheduler with drawn schedules; PYTHONHASHSEED sweep; decimal-context sweep vs exact oracles",
+    "C19": ("Hypothesis stateful histories vs fresh interpreter processes + global-state snapshots (incl. before-import ambient state); deterministic settrace thread scheduler with drawn schedules (same or different jobs per thread, threads before the sequential reference); PYTHONHASHSEED sweep; decimal-context sweep vs exact oracles; ddmin with fresh-process judging for history-dependent failures",
             "Histories of API/CLI/interactive calls with a probe set and a deep snapshot of cvss.* module state, decimal context, sys.path and warnings.filters after every step, everything recomputed by a fresh process in another order; 2-4 threads under harness-owned line-level schedules plus a free-running stress; probe corpus under 5 hash seeds; 40 ambient decimal contexts (prec 28..200 x 8 rounding modes) against the exact oracles.",
             "Schedules at line granularity in cvss/*.py frames; decimal sticky flags excluded; lazy stdlib imports warmed up before the first snapshot.", "4/C19"),
     "C20": ("differential execution of a Hypothesis-generated corpus on all 9 installed interpreters + /venv via a py2/py3-common probe",
